@@ -25,6 +25,8 @@ type Case struct {
 	Proto  string        `json:"proto"`
 	Fields []gen.TField  `json:"fields"`
 	Recs   [][]ref.Value `json:"recs"`
+	// NumExtra: the collectors' NumExtraElements setting
+	NumExtra int `json:"num_extra,omitempty"`
 }
 
 var (
@@ -86,6 +88,8 @@ func runCase(c Case) *ev.Failure {
 		if c.Proto == "udp" {
 			clk = glue.FrozenClock{}
 		}
+		glue.NumExtraElements = c.NumExtra
+		defer func() { glue.NumExtraElements = 0 }()
 		return glue.NewCol(c.Proto, mode, clk, 1800)
 	}
 	// reference run: the same case with the unknown fields deleted, strict collector
@@ -305,6 +309,7 @@ func clip(b []byte) []byte {
 
 func genCase(t *rapid.T) Case {
 	c := Case{Proto: rapid.SampledFrom([]string{"tcp", "udp"}).Draw(t, "proto")}
+	c.NumExtra = rapid.SampledFrom([]int{0, 0, 1, 3, 16}).Draw(t, "num_extra")
 	n := rapid.IntRange(1, 30).Draw(t, "nf")
 	maxVar := 700
 	switch small := rapid.IntRange(0, 15).Draw(t, "small"); {
